@@ -6,6 +6,11 @@ import re
 
 # (file, kind, pattern, replacement, expected_count, why)
 RULES = [
+    ("include/nstd/Crypto/Sha256.hpp", "literal",
+     "sha256.finalize((byte (&)[digestSize])hashKey);",
+     "{ byte nvDigest[digestSize]; sha256.finalize(nvDigest); Memory::copy(hashKey, nvDigest, digestSize); }",
+     1, "R5: goto-cc rejects the cast to reference-to-array; finalize writes exactly digestSize bytes "
+        "through the reference, so finalizing into a temporary and copying 32 bytes is equivalent"),
 ]
 
 
